@@ -104,7 +104,7 @@ void check_pruning(sim::RunCtx& ctx) {
     for (int k = 0; k < nops; k++) {
         size_t c = r.below((uint32_t)t.cols.size());
         const Col& col = t.cols[c];
-        if (col.type == T_BOOL || col.type == T_I96) continue;      // not in the property's type list
+        if (col.type == T_I96) continue;      // INT96 has no defined order: no writer states bounds for it
         // probe value: at / next to / beyond a group's bounds, a stored value, random, NaN
         int g0 = (int)r.below((uint32_t)ng);
         auto& co = W.chunks[(size_t)g0 * t.cols.size() + c];
